@@ -461,7 +461,7 @@ V("c11-crt-partial-accepted", "C11", "break", "R11.5", "partial CRT parameters a
 V("c11-kty-optional", "C11", "break", "R11.7", "kty no longer required",
   "registry.py", '    "kty": KeyParameter("Key Type", is_str, required=True),', '    "kty": KeyParameter("Key Type", is_str),')
 V("c11-key-ops-choice-missing", "C11", "break", "R11.7", "deriveBits dropped from key_ops choices",
-  "registry.py", "            \"deriveKey\",\n            \"deriveBits\",\n        ]),", "            \"deriveKey\",\n        ]),")
+  "registry.py", "            \"deriveKey\",\n            \"deriveBits\",\n        ], multiple=True),", "            \"deriveKey\",\n        ], multiple=True),")
 V("c11-dict-view-rederived", "C11", "break", "R11.8", "dict-imported keys re-derive their members",
   "rfc7517/models.py", "            self.validate_dict_key(data)\n            self._dict_value = data\n", "            self.validate_dict_key(data)\n")
 V("c11-benign-ec-inline", "C11", "benign", "", "EC coordinate encoder inlined",
@@ -961,3 +961,19 @@ V("c15-benign-list-validator-merged", "C15", "benign", "", "is_list_str with one
 V("c08-benign-concat-kdf-selector", "C08", "benign", "", "AlgorithmID member chosen through a selector constant, tag part through a conditional expression",
   "rfc7518/derive_key.py", "    if key_size:\n        alg_id = u32be_len_input(header[\"alg\"])\n        bit_size = key_size\n    else:\n        alg_id = u32be_len_input(header[\"enc\"])\n        bit_size = cek_size\n",
   "    id_member, bit_size = (\"alg\", key_size) if key_size else (\"enc\", cek_size)\n    alg_id = u32be_len_input(header[id_member])\n")
+V("c06-key-ops-string-accepted-again", "C06", "break", "R06.8", "the key_ops validator accepts a bare string again (F25 re-opened)",
+  "registry.py", "        ], multiple=True),", "        ]),")
+V("c11-jwk-view-stored-before-validation", "C11", "break", "R11.22", "the lazily built JWK view is stored before it is validated",
+  "rfc7517/models.py", "        self.validate_dict_key(data)\n        # fill the existing dict in place", "        # fill the existing dict in place")
+V("c16-dispatch-by-truthiness", "C16", "break", "E11", "the general / flattened JWS reader is chosen by the truthiness of the signatures member",
+  "jws.py", "    if \"signatures\" in value:\n        general_obj", "    if value.get(\"signatures\"):\n        general_obj")
+V("c19-oct-k-stripped", "C19", "break", "R19.10", "padding characters are stripped from both ends of the oct k member",
+  "rfc7518/oct_key.py", "        return urlsafe_b64decode(to_bytes(value[\"k\"]))", "        return urlsafe_b64decode(to_bytes(value[\"k\"]).strip(b\"=\"))")
+V("c14-single-key-set-skips-pick", "C14", "break", "R14.2", "a set of one key is resolved by get_by_kid even when a random pick was asked for (no kid written)",
+  "jwk.py", "        if not kid and use_random:", "        if not kid and use_random and len(_norm_key.keys) > 1:")
+V("c14-kid-empty-is-none", "C14", "break", "R14.15", "key.kid maps an empty kid to None",
+  "rfc7517/models.py", "        return t.cast(t.Optional[str], self.get(\"kid\"))", "        return t.cast(t.Optional[str], self.get(\"kid\") or None)")
+V("c06-use-check-skipped-with-key-ops", "C06", "break", "R06.9", "check_use is skipped for keys that declare key_ops",
+  "rfc7517/models.py", "        if designed_use and designed_use != use:", "        if designed_use and not self.get(\"key_ops\") and designed_use != use:")
+V("c12-rsa-overrides-as-pem", "C12", "break", "R12.15", "RSAKey overrides as_pem with its own private / public selector",
+  "rfc7518/rsa_key.py", "class RSAKey(AsymmetricKey[RSAPrivateKey, RSAPublicKey]):\n    key_type = \"RSA\"\n", "class RSAKey(AsymmetricKey[RSAPrivateKey, RSAPublicKey]):\n    key_type = \"RSA\"\n\n    def as_pem(self, private=None, password=None):  # type: ignore[no-untyped-def]\n        return self.as_bytes(\"PEM\", private is True or password is not None, password)\n\n")
